@@ -345,10 +345,83 @@ def integrity(sc, res, cfg, descr):
             res.violation(f"{tag}/working-tree-differs-from-index-after-race/{'+'.join(kinds)}", f"[{'+'.join(sc.ops)}] {descr}: git status --porcelain: {lines[:6]!r}", {"config": cfg})
 
 
+def run_realtime(args, res):
+    """three writers on one store object (threads of one server process), two pre-emptions, judged with real-time order:
+    A (put b) is pre-empted inside its UID scan, B (create c, UID u) then runs from start to end and is answered,
+    only then C (create d, same UID u) starts, is pre-empted somewhere before its write while A runs to its end, and
+    finishes.  B was answered before C began, so in every legal order B precedes C and C must be refused as a duplicate
+    - whatever A did in between.  (The serialisability judgement of the pair schedules cannot say this: there c and d
+    overlap, and both succeeding is the known check-before-lock finding.)"""
+    rng = random.Random(args["seed"])
+    base = common.mkscratch("c05r")
+    env = common.worker_env({"HOME": os.path.join(base, "home")})
+    os.environ["HOME"] = os.path.join(base, "home")
+    os.makedirs(os.environ["HOME"], exist_ok=True)
+    import logging
+    logging.disable(logging.CRITICAL)
+    t_end = time.monotonic() + args.get("budget_s", 200)
+    IN_SCAN = ("line:_scan_uids", "line:_check_duplicate", "line:import_one", "open:", "os.")
+    try:
+        for backend in args["backends"]:
+            ops = ["put_new_d_same_uid", "put_b", "put_new_c"]      # thread 0 = C, 1 = A, 2 = B
+            cfg = {"backend": backend, "mode": "realtime", "ops": ops, "seed": args["seed"], "depth": 2}
+            sc = Scenario(backend, "shared", ops, base, rng, env)
+            s0, raw0 = sc.run_schedule(1, {})
+            a_yields = [i for i, (t, g) in enumerate(s0.trace) if t == 1]
+            # A's yields come first in the trace when it runs first
+            a_yields = [i for i in a_yields if i < len(a_yields) and s0.trace[i][1].startswith(("line:_scan_uids", "line:_check_duplicate"))]
+            res.count("realtime_first_preemption_points", len(a_yields))
+            step2 = args.get("step2", 1)
+            for k1 in a_yields[::args.get("step1", 1)]:
+                if time.monotonic() > t_end:
+                    res.inconclusive.append("time budget exhausted in the three-writer schedules")
+                    break
+                s1, raw1 = sc.run_schedule(1, {k1: 2})
+                if s1.stuck:
+                    continue
+                tr = s1.trace
+                b_idx = [i for i, (t, g) in enumerate(tr) if t == 2]
+                c_idx = [i for i, (t, g) in enumerate(tr) if t == 0]
+                if not b_idx or not c_idx or min(c_idx) < max(b_idx):
+                    res.count("realtime_schedules_without_the_order_wanted")
+                    continue
+                k2s = [i for i in c_idx if tr[i][1].startswith(IN_SCAN)][::step2]
+                for k2 in k2s:
+                    s2, raw2 = sc.run_schedule(1, {k1: 2, k2: 1})
+                    if s2.stuck or any(r is None for r in raw2):
+                        res.count("schedules_discarded_blocked")
+                        continue
+                    outs = {i: outcome(r) for i, r in enumerate(raw2)}
+                    tr2 = s2.trace
+                    b2 = [i for i, (t, g) in enumerate(tr2) if t == 2]
+                    c2 = [i for i, (t, g) in enumerate(tr2) if t == 0]
+                    res.evaluations += 1
+                    res.count("realtime_schedules_judged")
+                    res.distinct.add(common.h(backend, "realtime", tr2[k1][1] if k1 < len(tr2) else "", tr2[k2][1] if k2 < len(tr2) else ""))
+                    if not b2 or not c2 or min(c2) < max(b2):
+                        continue
+                    if outs[2][0] == "ok":
+                        res.count("realtime_first_create_answered_ok")
+                    if outs[2][0] == "ok" and outs[0][0] == "ok":
+                        fin, dup = final_state(backend, sc.work)
+                        res.violation(f"{backend}/threads-sharing-one-store-object/duplicate-uid/second-create-began-after-the-first-was-answered",
+                                      f"[three writers on one store object] put b pre-empted at {tr2[k1][1]}; create c (UID u) ran from start to end and was answered ok; then create d (same UID) began, was "
+                                      f"pre-empted at {tr2[k2][1]} while put b finished, and was answered ok too: live resources sharing a UID: {dup!r}", {"config": cfg, "k1": k1, "k2": k2, "trace_tail": tr2[-40:]})
+                    elif outs[0][0] not in ("DuplicateUid", "ok", "Locked") and outs[0][0].startswith("EXC:"):
+                        res.count("realtime_second_create_raised:" + outs[0][0])
+    except Exception:
+        res.inconclusive.append("harness exception: " + traceback.format_exc()[-1500:])
+    finally:
+        common.rmtree(base)
+    return res
+
+
 def run_shard(args):
     res = common.Result()
     if args.get("mode") == "http":
         return run_http(args, res)
+    if args.get("mode") == "realtime":
+        return run_realtime(args, res)
     rng = random.Random(args["seed"])
     base = common.mkscratch("c05")
     env = common.worker_env({"HOME": os.path.join(base, "home")})
@@ -547,13 +620,16 @@ def check(tier, seed, t0):
     if th:
         for i, b in enumerate(["tree", "bare"]):
             shards.append({"mode": "http", "backend": b, "seed": seed * 100 + 80 + i, "clients": 8, "seconds": 60})
+    for i, b in enumerate(["tree", "bare"]):
+        shards.append({"mode": "realtime", "backends": [b], "seed": seed * 100 + 90 + i, "budget_s": 150 if not th else 1500, "step1": 2 if not th else 1, "step2": 3 if not th else 1})
     results, failures = common.run_shards("vf.props.c05", shards, timeout_s=400 if not th else 3000)
     merged = common.merge(results)
     c = merged["counters"]
     guards = [("scenarios", c.get("scenarios", 0), int(len(scs) * 0.95)), ("schedules judged", c.get("schedules_judged", 0), 3000 if not th else 30000),
               ("schedules equal to a sequential execution", c.get("schedules_serialisable", 0), 2000 if not th else 20000),
               ("schedules with a LockedError refusal", c.get("schedules_with_locked_refusal", 0), 50), ("fsck runs", c.get("fsck_runs", 0), 300),
-              ("operations issued after a race and judged", c.get("followups_judged", 0), 2000 if not th else 20000), ("of which refused as duplicate UID", c.get("followup_outcome:DuplicateUid", 0), 500)]
+              ("operations issued after a race and judged", c.get("followups_judged", 0), 2000 if not th else 20000),
+              ("three-writer schedules judged with real-time order (second create begins after the first was answered)", c.get("realtime_schedules_judged", 0), 300 if not th else 2000), ("of which refused as duplicate UID", c.get("followup_outcome:DuplicateUid", 0), 500)]
     disc = c.get("schedules_discarded_blocked", 0)
     return common.finish(PROP, tier, seed, "exploration", merged, failures, RULE, t0, guards=guards,
                          extra_cov={"schedules_discarded_as_blocked": disc, "distinct_interleavings": len(merged["distinct"])},
